@@ -2,7 +2,7 @@
 # usage: lib/seedtest.sh <patch.diff> <PID>...   applies a seeded change to /repo, runs the checks, restores /repo
 patch="$1"; shift
 rm -rf /tmp/evidence_saved && cp -r evidence /tmp/evidence_saved
-git -C /repo apply "$patch" || exit 2
+git -C /repo apply "$(realpath "$patch")" || exit 2
 for pid in "$@"; do
   out=$(./check "$pid" --tier quick 2>/tmp/seed_err.txt); rc=$?
   echo "[$pid] rc=$rc $(echo "$out" | grep -E 'VIOLATION|KNOWN' | head -3)"
